@@ -603,6 +603,99 @@ def check_c14(run, drv, ncases, start=0):
             run.sample(dict(grid=xp.tolist()[:8], targets=xs.tolist()[:6], angles=ang.tolist()[:6]))
 
 
+def check_integer_axes(run, prop, ncases):
+    """An axis stored with an integer type is the same axis: interpolating at non-integer targets gives what the same
+    grid stored as floats gives (values, missing results outside the grid, and the targets as output coordinate)."""
+    import xarray
+    from ocean_science_utilities.interpolate.dataset import interpolate_dataset_along_axis
+    rng = run.rng
+    for case in range(ncases):
+        if prop == "C13":
+            n = rng.choice([2, 3, 5, 9])
+            xi = np.cumsum([rng.choice([1, 2, 5, 10]) for _ in range(n)]) + rng.choice([-40, -7, 0, 3])
+            if rng.random() < 0.3:
+                xi = xi[::-1].copy()
+            cname, lo, hi = rng.choice(["depth_level", "z"]), float(xi.min()), float(xi.max())
+            xs = np.array([float(q64(rng.uniform(lo - 1.0, hi + 1.0))) for _ in range(8)] + [lo - 0.5, hi + 0.5, lo + 0.25, hi - 0.75, lo, hi])
+            modes = (False, True)
+        else:
+            step = rng.choice([5, 10, 30, 45])
+            start = rng.choice([-180, -90, 0, 20])
+            xi = start + step * np.arange(360 // step)
+            if rng.random() < 0.3:
+                xi = xi[::-1].copy()
+            cname = rng.choice(["direction", "longitude"])
+            xs = np.array([float(q64(rng.uniform(-1000, 1000))) for _ in range(10)] +
+                          [float(xi[0]) - 0.5, float(xi[0]) - 0.5 + 360.0, float(xi.min()) - 0.25 - 360.0])
+            modes = (False,)
+        xi = xi.astype(rng.choice(["int64", "int32"]))
+        data = rand_data(rng, (2, len(xi)), 0.0)
+        dsi = xarray.Dataset({"v": (("k", cname), data)}, coords={"k": [0.0, 1.0], cname: xi})
+        dsf = xarray.Dataset({"v": (("k", cname), data)}, coords={"k": [0.0, 1.0], cname: xi.astype(float)})
+        for nearest in modes:
+            run.case("integer_axis", key=(prop, case, nearest))
+            run.count("integer_axis_" + str(xi.dtype))
+            info = dict(coordinate=cname, dtype=str(xi.dtype), grid=xi.tolist(), targets=xs.tolist(), nearest=nearest)
+            try:
+                with warnings.catch_warnings():
+                    warnings.simplefilter("ignore")
+                    oi = interpolate_dataset_along_axis(xs.copy(), dsi, coordinate_name=cname, nearest_neighbour=nearest)
+                    of = interpolate_dataset_along_axis(xs.copy(), dsf, coordinate_name=cname, nearest_neighbour=nearest)
+            except Exception as ex:
+                run.violation("interpolation along an integer-typed axis raised", dict(info, error=repr(ex)))
+                continue
+            a, b = np.asarray(oi["v"].values, dtype=float), np.asarray(of["v"].values, dtype=float)
+            if a.shape != b.shape or not np.allclose(a, b, rtol=1e-12, atol=1e-12, equal_nan=True):
+                run.violation("interpolating along an axis stored as integers differs from the same axis stored as floats",
+                              dict(info, got=a.tolist(), want=b.tolist()))
+            co = np.asarray(oi[cname].values, dtype=float)
+            if co.shape != xs.shape or not np.allclose(co, xs):
+                run.violation("the output coordinate is not the requested targets (integer-typed axis)", dict(info, got=co.tolist()))
+
+
+def check_global_longitude_grids(run):
+    """Gridded data at the points of a track that drifts through the bin spanning the wrap of a global longitude grid
+    (interpolate_dataset with its defaults): every n in 4..72, one start each; each point lies between its two cyclic
+    neighbours, none is out of range."""
+    import xarray
+    import pandas as pd
+    from ocean_science_utilities.interpolate.dataset import interpolate_dataset
+    from ocean_science_utilities.interpolate.geometry import Track
+    rng = run.rng
+    nt = 5
+    time = pd.date_range("2022-03-01", periods=nt, freq="3h").values
+    lat = np.array([-10.0, 0.0, 10.0])
+    for n in range(4, 73):
+        start = rng.choice([0.0, -180.0, 12.3, -179.5, 7.0 / 3.0])
+        step = 360.0 / n
+        lon = start + np.arange(n) * step
+        g = np.array([rng.random() * 10.0 for _ in range(n)])
+        data = g[None, None, :] + 0.1 * lat[None, :, None] + np.arange(nt, dtype=float)[:, None, None]
+        ds = xarray.Dataset({"u": (("time", "latitude", "longitude"), data)}, coords={"time": time, "latitude": lat, "longitude": lon})
+        tl = np.linspace(lon[-1] - 0.4 * step, lon[0] + 360 + 0.4 * step, nt)
+        tl = (tl + 180.0) % 360.0 - 180.0
+        tla = np.linspace(-7.0, 8.0, nt)
+        run.case("global_grid_track", key=(n, start))
+        info = dict(nodes=n, start=float(start), track_longitude=tl.tolist())
+        try:
+            with warnings.catch_warnings():
+                warnings.simplefilter("ignore")
+                res = interpolate_dataset(ds, Track.from_arrays(tla, tl, time, "drifter"))
+                out = np.asarray(list(res.values())[0]["u"].values, dtype=float)
+        except Exception as ex:
+            run.violation("interpolate_dataset raised on a global longitude grid", dict(info, error=repr(ex)))
+            continue
+        want = []
+        for i in range(nt):
+            sfrac = ((tl[i] - lon[0]) % 360.0) / step
+            k = int(np.floor(sfrac)) % n
+            fr = sfrac - np.floor(sfrac)
+            want.append((1 - fr) * g[k] + fr * g[(k + 1) % n] + 0.1 * tla[i] + i)
+        if out.shape != (nt,) or not np.allclose(out, want, atol=1e-6):
+            run.violation("gridded data at track points in the bin spanning the wrap of a global longitude grid is not interpolated between the two cyclic neighbours",
+                          dict(info, got=out.tolist(), want=[float(w) for w in want]))
+
+
 def main(prop, tier, seed):
     run = common.Run(prop, tier, seed)
     if prop == "C14":
@@ -622,6 +715,10 @@ def main(prop, tier, seed):
             cases(check_c13, 1500 if thorough else 150)
         else:
             cases(check_c14, 1000 if thorough else 100)
+            with common.guard(run, "C14 global longitude grids"):
+                check_global_longitude_grids(run)
+        with common.guard(run, f"{prop} integer-typed axes"):
+            check_integer_axes(run, prop, 400 if thorough else 40)
     finally:
         drv.close()
     return run.finish(aud, ASSUMPTIONS, RULES[prop])
